@@ -110,13 +110,13 @@ CallEnd(rec, q) == CHOOSE j \in q..Len(rec.evs) :
                       IsTop(rec.evs[j]) /\ \A jj \in q..(j - 1) : ~IsTop(rec.evs[jj])
 
 \* what the A-layer predicts for this history: the look-aside algorithm keyed through
-\* == (C05_MemoImpl) or, for an optimizer trace, the rewritten class's semantics
+\* == (C05_MemoImpl) or, for an optimizer trace, the rewritten class's semantics sem
 \* (C05_Optimizer), run against the same memo machine: first failing clause, the
 \* number of the failing call and that call's result
-Chain(rec, upto) ==
+Chain(rec, upto, sem) ==
     LET idx == TopIdx(rec, upto)
         CallA(tb, q) ==
-            IF IsOpt(rec) THEN OCall(SemOf(rec.opt), tb, Tree(rec, rec.evs[q].e), ArgT(rec, rec.evs[q].a))
+            IF IsOpt(rec) THEN OCall(sem, tb, Tree(rec, rec.evs[q].e), ArgT(rec, rec.evs[q].a))
             ELSE TopCall("pyeq", "store", tb, rec.mk, Tree(rec, rec.evs[q].e), ArgT(rec, rec.evs[q].a))
         RECURSIVE Go(_, _, _, _)
         Go(q, tb, ms, n) ==
@@ -127,21 +127,34 @@ Chain(rec, upto) ==
                  ELSE Go(q + 1, c.tab, rn.ms, n + 1)
     IN Go(1, EmptyFn, MemoInit, 0)
 
+Explains(rec, at, sem) ==
+    LET upto == CallEnd(rec, at)
+        p    == Chain(rec, upto, sem)
+        top  == rec.evs[upto]
+    IN /\ p.v = verdict
+       /\ p.call = Cardinality(TopIdx(rec, upto))
+       /\ (verdict = "computed-twice" \/ p.r = Res(rec, top.r))
+
+\* For an optimizer trace two transcriptions are tried: the process state left by the
+\* earlier optimisations is inherited (what optimize.py does today: in-place rewriting
+\* of cached ASTs), or every optimisation starts from pristine sources (what it would
+\* do once repaired).  A failure that the pristine transcription already predicts is
+\* not blamed on the inherited state; the first that predicts the recorded failure names it.
+SemStale(rec) == SemOf(rec.opt)
+SemPristine(rec) == SemOf(<< rec.opt[Len(rec.opt)] >>)
 Pred(rec, at) ==
     IF rec.mk.m \notin ModelledNames THEN "n/a"
-    ELSE LET upto == CallEnd(rec, at)
-             p    == Chain(rec, upto)
-             top  == rec.evs[upto]
-         IN IF /\ p.v = verdict
-               /\ p.call = Cardinality(TopIdx(rec, upto))
-               /\ (verdict = "computed-twice" \/ p.r = Res(rec, top.r))
-            THEN "match" ELSE "differ"
+    ELSE IF ~IsOpt(rec) THEN (IF Explains(rec, at, [x0 |-> 0]) THEN "match" ELSE "differ")
+    ELSE IF Len(rec.opt) > 1 /\ Explains(rec, at, SemPristine(rec)) THEN "match-pristine"
+    ELSE IF Explains(rec, at, SemStale(rec)) THEN "match"
+    ELSE "differ"
 
 Dev(rec, at) ==
     IF ~IsOpt(rec) THEN ""
-    ELSE LET upto == CallEnd(rec, at) IN
-         OptDeviationFor(SemOf(rec.opt), verdict, ArgT(rec, rec.evs[upto].a),
-                         ArgsUpTo(rec, upto), CollAt(rec, upto))
+    ELSE LET upto == CallEnd(rec, at)
+             sem  == IF Pred(rec, at) = "match-pristine" THEN SemPristine(rec) ELSE SemStale(rec)
+         IN OptDeviationFor(sem, verdict, ArgT(rec, rec.evs[upto].a),
+                            ArgsUpTo(rec, upto), CollAt(rec, upto))
 
 Finished == verdict # "" \/ l > Len(Traces[tid].evs)
 Report ==
